@@ -628,6 +628,22 @@ fn c12_targeted<F: Fam>(ctx: &Ctx, sw: &Sweep) -> u64 {
             hosts.push(a);
         }
     }
+    hosts.push(Ast::Connect {
+        level: if F::FAMILY == Family::V5 { 5 } else { 4 },
+        clean: true,
+        keep_alive: 1,
+        props: vec![],
+        client_id: "c".into(),
+        will: Some(mqtt_ref::Will {
+            qos: 0,
+            retain: false,
+            props: if F::FAMILY == Family::V5 { vec![mqtt_ref::Prop { id: 0x01, val: mqtt_ref::PVal::Byte(1) }] } else { vec![] },
+            topic: "t".into(),
+            payload: b"x".to_vec(),
+        }),
+        username: None,
+        password: None,
+    });
     let mut seen_sites = std::collections::HashSet::new();
     for a in &hosts {
         let f = match enc::encode(F::FAMILY, a, Spell::default()) {
@@ -664,6 +680,20 @@ fn c12_targeted<F: Fam>(ctx: &Ctx, sw: &Sweep) -> u64 {
                     let g = mqtt_ref::enc::Frame { control: f.control, rl_pad: 0, rl_raw: None, body: mutate::replace(&f.body, &path, Node::tag(tag, Node::raw(v))) };
                     if let Some(b) = g.bytes() {
                         frames.push(b);
+                    }
+                }
+            }
+            if let Tag::Bin(mqtt_ref::enc::BinKind::WillPayload) = tag {
+                // the will payload behind a payload-format indicator of 1
+                let flagged = matches!(a, Ast::Connect { will: Some(w), .. } if w.props.iter().any(|p| p.id == 0x01 && p.val == mqtt_ref::PVal::Byte(1)));
+                if flagged && seen_sites.insert((a.ptype(), "will-payload".to_string())) {
+                    fields += 1;
+                    for t in &texts {
+                        let n = Node::tag(tag, Node::Len16(Box::new(Node::raw(t))));
+                        let g = mqtt_ref::enc::Frame { control: f.control, rl_pad: 0, rl_raw: None, body: mutate::replace(&f.body, &path, n) };
+                        if let Some(b) = g.bytes() {
+                            frames.push(b);
+                        }
                     }
                 }
             }
